@@ -450,6 +450,18 @@ def autocompleteRows (cols : Nat) : Nat → List Nat → Nat
   | auto, cells :: rest =>
     if auto > MAX_AUTOCOMPLETED_CELLS then auto else autocompleteRows cols (auto + (cols - cells)) rest
 
+/-- Body rows `try_opening_row` adds before it refuses (same recursion as `autocompleteRows`). -/
+def acceptedRows (cols : Nat) : Nat → List Nat → Nat
+  | _, [] => 0
+  | auto, cells :: rest =>
+    if auto > MAX_AUTOCOMPLETED_CELLS then 0 else 1 + acceptedRows cols (auto + (cols - cells)) rest
+
+/-- Cells of the accepted rows that are in the source (`num_nonempty_cells` grows by `min(cols, cells)` per row). -/
+def presentCells (cols : Nat) : Nat → List Nat → Nat
+  | _, [] => 0
+  | auto, cells :: rest =>
+    if auto > MAX_AUTOCOMPLETED_CELLS then 0 else min cols cells + presentCells cols (auto + (cols - cells)) rest
+
 def XML_MAX_INDENT : Nat := 40
 
 /-- `xml.rs` `indent()`: `min(self.indent, MAX_INDENT)` spaces. -/
